@@ -5,3 +5,4 @@ import GSProofs.C08
 import GSProofs.C19
 import GSProofs.C03
 import GSProofs.C22
+import GSProofs.C21
